@@ -41,6 +41,7 @@ def run(ck):
     ck.rule("C11.R15", "span-directive value matchers: each record_* of the matcher visitor tests exactly the ValueMatch variants of its value kind, with the right comparison, and marks the field matched only when the test succeeds", floor=6)
     ck.rule("C11.R16", "`is this a span or an event` (what decides whether span directives and field-name constraints apply) reads the callsite kind's own bit: three distinct bits, each predicate tests its own", floor=6)
     ck.rule("C11.R17", "the max-level shortcut in front of the directive table never hides an entry: DirectiveSet::add keeps max_level >= every stored level, also on replacement (as C08.R4)", floor=1)
+    ck.rule("C11.R18", "`the directive allows its level` compares levels with a correct total order (as C19.R1/R2/R4)", floor=60)
     ck.rule("C11.R9", "EnvFilter Builder steps keep every other option (same-named field carry-over, as C13.R6)", floor=3)
     ck.rule("C11.R1", "directive vector mutated only by DirectiveSet::add at the binary_search position; max_level kept an upper bound", floor=5)
     ck.rule("C11.R2", "first match in storage order decides; no match disables; siblings agree", floor=4)
@@ -67,6 +68,8 @@ def run(ck):
     has_dynamics_rule(ck, F)
     match_visitor_rule(ck, F)
     kind_rule(ck, F)
+    from rules import C19 as _C19
+    _C19.order_rules(ck, Facts("default"), "C11.R18")
     C08.directive_add_rule(ck, Facts("release"), rid="C11.R17")
     # ... and the one option that changes what a value pattern *means* is honoured where the filter is built: with
     # `with_regex(false)` every directive's patterns are turned into literal matchers, for every directive
